@@ -1,5 +1,6 @@
 import RuxModel.Props.C09Gen
 import RuxModel.Props.C05Gen
+import RuxModel.Props.C10Gen
 /-
   C04 / C05 on the generated dispatch COMPOSED with the generated `Next` loop: the `ctx.Next()` inside the generated
   `handleHTTPRequest` is the generated `Ctx.Next` (context.go), running handlers that the chain model reads
@@ -48,5 +49,37 @@ theorem C04_gen_dispatch_onion (env : HEnv σ ρ Handler GCtx) (g : Gen.Router) 
   refine ⟨c, ?_, htr, hidx⟩
   unfold nextByGen
   rw [hc]
+
+
+/-! ### the whole request: `ServeHTTP` as generated, its `handleHTTPRequest` the generated one -/
+
+variable {η γ : Type}
+
+/-- the pool and the dispatcher of `ServeHTTP`, the dispatcher being the GENERATED `handleHTTPRequest` -/
+def Tie.serveEnv (g : Gen.Router) (henv : HEnv σ ρ η (Gen.Ctx γ)) (get : σ → σ × Gen.Ctx γ) (put : σ → Gen.Ctx γ → σ) :
+    PEnv σ (Gen.Ctx γ) :=
+  { poolGet := get, poolPut := put, handle := fun s c => Gen.Router.handleHTTPRequest g c henv s }
+
+/-- **one request, end to end, on generated code only**: `ServeHTTP` takes SOME context from the pool, `Init`
+    makes it pristine (`C10_gen_init_pristine`), the dispatcher is the closed form `handleSpec` on it (deferred recover,
+    QuickMatch, prelude, chain, OnError, commit), and the context goes back to the pool exactly when the dispatcher
+    returned — a panic that escapes (no OnPanic hook, or a hook that panics) leaves the pool without it. -/
+theorem C10_gen_request_pipeline (g : Gen.Router) (req : Option Nat) (henv : HEnv σ ρ η (Gen.Ctx γ))
+    (get : σ → σ × Gen.Ctx γ) (put : σ → Gen.Ctx γ → σ) (s : σ) :
+    Gen.Router.ServeHTTP g () req (serveEnv g henv get put) s =
+      match handleSpec henv g (Gen.Ctx.Init (get s).2 () req) (get s).1 with
+      | (s2, _, some p) => (s2, some p)
+      | (s2, c2, none) => (put s2 c2, none) := by
+  rw [C10_gen_serveHTTP]
+  simp only [serveEnv, gen_handle_eq_spec]
+  rcases handleSpec henv g (Gen.Ctx.Init (get s).2 () req) (get s).1 with ⟨s2, c2, _ | p⟩ <;> rfl
+
+/-- … and its outcome does not depend on which pooled context it got (C03 / C10, end to end) -/
+theorem C03_gen_request_pool_choice_irrelevant (g : Gen.Router) (req : Option Nat) (henv : HEnv σ ρ η (Gen.Ctx γ))
+    (put : σ → Gen.Ctx γ → σ) (s1 : σ) (c c' : Gen.Ctx γ) (hg : c.ghost = c'.ghost) :
+    Gen.Router.ServeHTTP g () req (serveEnv g henv (fun _ => (s1, c)) put) s1 =
+      Gen.Router.ServeHTTP g () req (serveEnv g henv (fun _ => (s1, c')) put) s1 := by
+  rw [C10_gen_request_pipeline, C10_gen_request_pipeline]
+  simp only [C10_gen_init_forgets c c' () req hg]
 
 end Rux
